@@ -35,10 +35,55 @@ func init() {
 				return false
 			})
 		}
+		// CreatePipe: how many times is the registry map consulted by name inside a Lock()/Unlock() pair, and is the store
+		// `s.ppipes[p.Name] = …` guarded by the second look-up's negative result?
+		lookups, guardedStore := 0, false
+		cp := funcDecl(f, "Service", "CreatePipe")
+		if cp == nil {
+			problem("pipe.Service.CreatePipe not found")
+		} else {
+			ast.Inspect(cp.Body, func(n ast.Node) bool {
+				switch s := n.(type) {
+				case *ast.AssignStmt:
+					// _, ok := s.ppipes[p.Name]   /   _, ok = s.ppipes[p.Name]
+					if len(s.Lhs) == 2 && len(s.Rhs) == 1 {
+						if ix, ok := s.Rhs[0].(*ast.IndexExpr); ok && isSel(ix.X, "s", "ppipes") {
+							lookups++
+						}
+					}
+				case *ast.IfStmt:
+					// if !ok { s.ppipes[p.Name] = stm … }
+					if u, ok := s.Cond.(*ast.UnaryExpr); ok && u.Op.String() == "!" {
+						if id, ok := u.X.(*ast.Ident); ok && id.Name == "ok" {
+							ast.Inspect(s.Body, func(m ast.Node) bool {
+								if as, ok := m.(*ast.AssignStmt); ok && len(as.Lhs) == 1 {
+									if ix, ok := as.Lhs[0].(*ast.IndexExpr); ok && isSel(ix.X, "s", "ppipes") {
+										guardedStore = true
+									}
+								}
+								return true
+							})
+						}
+					}
+				}
+				return true
+			})
+		}
+		l.p("/-- `CreatePipe` looks the name up twice (before and after building the pipe) and stores only under the second look-up's negative answer -/")
+		l.p("def createPipeRechecks : Bool := %s", leanBool(lookups >= 2 && guardedStore))
 		l.p("/-- the `for … range s.ppipes` loop of `GetPipes` contains `cnt++` -/")
 		l.p("def getPipesIncrementsCnt : Bool := %s", leanBool(incr))
 		l.p("/-- the loop searches the insertion point with `sort.Search(cnt, …)` -/")
 		l.p("def getPipesSearchesOverCnt : Bool := %s", leanBool(searchOverCnt))
 		l.write()
 	}
+}
+
+func isSel(e ast.Expr, x, sel string) bool {
+	se, ok := e.(*ast.SelectorExpr)
+	if !ok || se.Sel.Name != sel {
+		return false
+	}
+	id, ok := se.X.(*ast.Ident)
+	return ok && id.Name == x
 }
